@@ -370,8 +370,8 @@ func (a action) String() string {
 		return "P0"
 	case 'T', 'E':
 		return fmt.Sprintf("%c%d", a.kind, a.to)
-	case 'B':
-		return fmt.Sprintf("B%s>%d", a.spec, a.to)
+	case 'B', 'A':
+		return fmt.Sprintf("%c%s>%d", a.kind, a.spec, a.to)
 	default:
 		return fmt.Sprintf("%c%d>%d", a.kind, a.msg, a.to)
 	}
@@ -390,7 +390,7 @@ func parseAction(s string) (action, error) {
 		n, err := strconv.Atoi(rest)
 		a.to = n
 		return a, err
-	case 'B':
+	case 'B', 'A':
 		i := strings.LastIndexByte(rest, '>')
 		if i < 0 {
 			return a, fmt.Errorf("bad action %q", s)
@@ -499,6 +499,10 @@ func (s *System) deviations() []action {
 	}
 	if m.Byz && s.w.sc.Byz >= 0 {
 		for _, spec := range s.byzMenu() {
+			if m.ByzAll {
+				out = append(out, action{kind: 'A', spec: spec})
+				continue
+			}
 			for _, i := range s.w.sc.Honest() {
 				if !s.hosts[i].finished {
 					out = append(out, action{kind: 'B', spec: spec, to: i})
@@ -598,6 +602,18 @@ func (s *System) apply(a action) error {
 		rec := s.addMsg(s.w.sc.Byz, m, true)
 		s.byzSent++
 		s.deliver(rec, a.to)
+	case 'A':
+		m, err := s.byzBuild(a.spec)
+		if err != nil {
+			return fmt.Errorf("byz %s: %w", a.spec, err)
+		}
+		rec := s.addMsg(s.w.sc.Byz, m, true)
+		s.byzSent++
+		for _, i := range s.w.sc.Honest() {
+			if !s.hosts[i].finished {
+				s.deliver(rec, i)
+			}
+		}
 	default:
 		return fmt.Errorf("unknown action kind %c", a.kind)
 	}
